@@ -304,6 +304,25 @@ def run_design(res, d, tier, seed):
                 stil_case(res, case(markers, d.pis, d.pos, [p], names='hier'))
         # two patterns
         stil_case(res, case(markers, d.pis[::-1], d.pos[::-1], [base_pattern(0), base_pattern(1)]))
+        # pattern sets of three: a pattern with a don't-care at one cell before / between fully specified ones; what one pattern
+        # holds must not influence the values of the others (every position of N/X, with and without launch-on-capture)
+        for ci, ch in enumerate(d.chains):
+            for k in range(len(ch)):
+                pn = base_pattern(1)
+                pn['load'][ci] = pn['load'][ci][:k] + 'N' + pn['load'][ci][k + 1:]
+                pn['unload'][ci] = pn['unload'][ci][:k] + 'X' + pn['unload'][ci][k + 1:]
+                ones = base_pattern(0); ones['load'] = ['1' * len(c_) for c_ in d.chains]; ones['unload'] = ['H' * len(c_) for c_ in d.chains]
+                zeros = base_pattern(1); zeros['load'] = ['0' * len(c_) for c_ in d.chains]; zeros['unload'] = ['L' * len(c_) for c_ in d.chains]
+                stil_case(res, case(markers, d.pis, d.pos, [pn, ones, zeros]))
+                stil_case(res, case(markers, d.pis, d.pos, [zeros, pn, ones]))
+                lp = []
+                for q, bits in ((pn, 0), (ones, 1), (zeros, 0)):
+                    q = dict(q)
+                    q['launch_pi'] = ''.join('P' if n == 'clk' else ('0' if n == 'se' else '01'[(j + bits) % 2]) for j, n in enumerate(d.pis))
+                    q['capture_pi'] = ''.join('P' if n == 'clk' else ('0' if n == 'se' else '01'[(j + bits + 1) % 2]) for j, n in enumerate(d.pis))
+                    lp.append(q)
+                stil_case(res, case(markers, d.pis, d.pos, lp, loc=True))
+                res.count('three_pattern_sets')
         # launch-on-capture
         clk = None
         for pulses in ((True, True), (True, False), (False, True), (False, False)):
